@@ -395,7 +395,9 @@ def rule_repr_only(ctx):
 
 def rule_exact_compare(ctx):
     """All comparing arms of exact_match_impl / substring scanners normalize the haystack side."""
-    from props.c01 import normalized, config_atom
+    from props.c01 import normalized, config_atom, rule_norm_route
+    # every single-character comparison with the needle in these bodies too (early-outs, first/last character tests)
+    rule_norm_route(ctx, only=("Matcher::exact_match_impl", "exact::<impl Matcher>::"), floor=3)
     facts = ctx.facts
     n = 0
     for name in ("Matcher::exact_match_impl", "exact::<impl Matcher>::substring_match_non_ascii", "exact::<impl Matcher>::substring_match_ascii_with_prefilter"):
